@@ -173,3 +173,43 @@ func WaitDoneOrBlocked(id string, state string, done func() bool, limit time.Dur
 		}
 	}
 }
+
+// WaitDoneOrBlockedIn is WaitDoneOrBlocked for a set of accepted wait states; it returns the state seen.
+func WaitDoneOrBlockedIn(id string, states []string, done func() bool, limit time.Duration) (finished bool, state string, timedOut bool) {
+	in := func(st string) bool {
+		for _, a := range states {
+			if a == st {
+				return true
+			}
+		}
+		return false
+	}
+	deadline := time.Now().Add(limit)
+	for i := 0; ; i++ {
+		if done() {
+			return true, "", false
+		}
+		if i > 5 {
+			if st := StateOf(id); in(st) {
+				time.Sleep(2 * time.Millisecond)
+				if done() {
+					return true, "", false
+				}
+				if StateOf(id) == st && !done() {
+					return false, st, false
+				}
+			}
+		}
+		if time.Now().After(deadline) {
+			return false, "", true
+		}
+		if i < 20 {
+			runtime.Gosched()
+		} else {
+			time.Sleep(50 * time.Microsecond)
+		}
+	}
+}
+
+// SyncBlocked are the wait states of a goroutine blocked in a sync primitive or on a channel.
+var SyncBlocked = []string{"sync.Mutex.Lock", "sync.RWMutex.Lock", "sync.RWMutex.RLock", "chan receive", "chan send", "select", "sync.Cond.Wait"}
